@@ -10,6 +10,8 @@ import (
 	"strings"
 	"syscall"
 
+	"time"
+
 	"verifsim/choice"
 )
 
@@ -40,6 +42,14 @@ func op(kind, path string) (seq int, f *Fault) {
 	}
 	seq = len(cur.Ops)
 	cur.Ops = append(cur.Ops, Op{Seq: seq, Kind: kind, Path: path})
+	if cur.SlowSeed != 0 {
+		// a slow disk, a network mount, a late writer on a pipe: one operation in four takes between
+		// half a second and five seconds of simulated time
+		if r := choice.Mix(cur.SlowSeed, uint64(seq)); r%4 == 0 {
+			cur.Clock = cur.Clock.Add(500*time.Millisecond + time.Duration((r>>8)%4500)*time.Millisecond)
+			cur.WorldUse["slow-operations"]++
+		}
+	}
 	for i := range cur.Faults {
 		if cur.Faults[i].At == seq && cur.Faults[i].OpKind == kind {
 			f = &cur.Faults[i]
